@@ -12,6 +12,7 @@ after) are recorded and validated against the mode machine by the same trace spe
 """
 import json
 import os
+import shutil
 import subprocess
 
 from lib import common, fmtcommon
@@ -129,6 +130,34 @@ def run(ctx):
         if open(path, "rb").read().decode("utf-8") != want:
             ctx.fail("cli:fmt-writes-different-text", {"name": name}, "`incan fmt` wrote something else than format_source returns",
                      tags=["variant:" + name.rsplit("@", 1)[1]])
+    # ---------------------------------------------------------------- directory sessions: `incan fmt DIR`, `incan fmt --check DIR`
+    good = [(nm, tx, fo["obs"]["text"]) for (nm, tx), fo in zip(sessions, fouts) if fo.get("obs", {}).get("ok")]
+    for dk in range(2 if ctx.quick else 8):
+        pick = rnd.sample(good, min(len(good), 4))
+        # clean / dirty mix: every other file is written already formatted; the dirty one is not always the first in the walk
+        ddir = os.path.join(cdir, f"dir{dk}")
+        shutil.rmtree(ddir, ignore_errors=True)
+        os.makedirs(os.path.join(ddir, "sub"))
+        paths, states = [], []
+        for j, (nm, tx, want) in enumerate(pick):
+            dirty = (want != tx) and ((j + dk) % 2 == 0 or dk % 2 == 1 and j == len(pick) - 1)
+            text = tx if dirty else want
+            pth = os.path.join(ddir, "sub" if j % 2 else "", f"m{j}_{'z' if j == 0 else 'a'}.incn")
+            with open(pth, "w", encoding="utf-8", newline="") as fh:
+                fh.write(text)
+            paths.append(pth)
+            states.append("dirty" if dirty else "clean")
+        events.append({"a": "dir", "name": f"dir{dk}", "states": states})
+
+        def dinvoke(args):
+            before = [(open(pp, "rb").read(), os.stat(pp).st_mtime_ns) for pp in paths]
+            p = subprocess.run([cli, "fmt"] + args + [ddir], stdout=subprocess.PIPE, stderr=subprocess.PIPE, timeout=300)
+            after = [(open(pp, "rb").read(), os.stat(pp).st_mtime_ns) for pp in paths]
+            return p.returncode, [b != a for b, a in zip(before, after)]
+        for a, args in (("dcheck", ["--check"]), ("dfmt", []), ("dcheck", ["--check"]), ("dfmt", [])):
+            rc, mods = dinvoke(args)
+            n_cli += 1
+            events.append({"a": a, "name": f"dir{dk}", "exit": rc, "modified": mods})
     # ---------------------------------------------------------------- TLC validates everything recorded
     tpath = os.path.join(ctx.work, "format_trace.ndjson")
     with open(tpath, "w") as fh:
@@ -147,11 +176,16 @@ def run(ctx):
         at = rej[0]["at"]
         validated = at - 1
         bad = events[at - 1]
-        if bad["a"] == "run":
+        if bad["a"] in ("dir", "dfmt", "dcheck"):
+            start = max(j for j in range(at) if events[j]["a"] == "dir")
+            ctx.fail("cli:directory-session-not-a-behaviour-of-the-mode-machine:" + bad["a"], {"session": events[start:at]},
+                     "exit status / set of rewritten files of `incan fmt [--check] DIR` contradicts the mode machine")
+        elif bad["a"] == "run":
             raise ToolError(f"FormatTrace rejected a run the driver judged stable: {bad['name']}")
-        start = max(j for j in range(at) if events[j]["a"] == "file")
-        ctx.fail("cli:session-not-a-behaviour-of-the-mode-machine:" + bad["a"], {"session": events[start:at]},
-                 "exit status / file modification of a real `incan fmt` invocation contradicts the mode machine")
+        else:
+            start = max(j for j in range(at) if events[j]["a"] == "file")
+            ctx.fail("cli:session-not-a-behaviour-of-the-mode-machine:" + bad["a"], {"session": events[start:at]},
+                     "exit status / file modification of a real `incan fmt` invocation contradicts the mode machine")
     ctx.sample({"trace_event": {k: v for k, v in events[0].items() if k != "lines"}, "lines_head": events[0].get("lines", [])[:5]})
     common.write_evidence(ctx, "exploration", {
         "evaluations": n + n_cli,
